@@ -461,7 +461,14 @@ func runC11(c C11Case) *Outcome {
 		}
 		mgr := *(**cache.Manager)(p)
 		*mgr.GetSearchCache() = *cache.NewSearchCache(c.Capacity, time.Duration(c.TTL))
-		// what every request returns when run alone, computed before any concurrency
+		// what every request returns when run alone: computed on a SEPARATELY loaded copy of the same files, so
+		// that the object under test meets its first searches concurrently (state filled lazily "on first use"
+		// would otherwise be warmed up by the harness itself)
+		ref, rerr := database.LoadDatabase("/data/main.yml")
+		if rerr != nil {
+			o.Skip = true
+			return o
+		}
 		expect = map[[3]int][]Res{}
 		for _, cl := range c.Clients {
 			for _, op := range cl {
@@ -469,7 +476,7 @@ func runC11(c C11Case) *Outcome {
 					eo := c11EffOpts(op.Kind, op.Entry, c.Options[op.O%len(c.Options)])
 					k := [3]int{op.Q % len(c.Queries), op.O % len(c.Options), boolInt(len(optDiff(eo, c.Options[op.O%len(c.Options)])) == 0)}
 					if _, ok := expect[k]; !ok {
-						expect[k] = resOf(db.SearchUniversal(c.Queries[k[0]], eo.toDB()))
+						expect[k] = resOf(ref.SearchUniversal(c.Queries[k[0]], eo.toDB()))
 					}
 				}
 				if op.Kind == "invalidate" {
